@@ -72,7 +72,8 @@ def _op():
 def strategy(tier):
     return st.fixed_dictionaries(
         {
-            "spec": rg.reactor_spec(max_rings=3, max_blocks=3),
+            "spec": st.one_of(rg.reactor_spec(max_rings=3, max_blocks=3), rg.reactor_spec(max_rings=3, max_blocks=3),
+                              rg.reactor_spec(max_rings=3, max_blocks=3), rg.rzt_spec()),
             "program": st.lists(_op(), min_size=0, max_size=8),
             "reload": st.booleans(),
         }
@@ -308,7 +309,7 @@ def execute(case):
     counts = collections.Counter()
     apply_program(cs, r, case["program"], out, counts)
     kinds = {k.split(":")[0] for k in counts}
-    out.nontrivial = len(kinds) >= 2 or any(d["pinGrid"] for d in spec["designs"])
+    out.nontrivial = len(kinds) >= 2 or any(d["pinGrid"] for d in spec["designs"]) or spec["geom"] == "thetarz"
     out.label("geom:" + spec["geom"], "sym:" + spec["symmetry"].split()[0], *["op:" + k for k in sorted(counts)])
     if any(d["pinGrid"] for d in spec["designs"]):
         out.label("pin-grid")
@@ -410,7 +411,7 @@ def nodefault_execute(case):
 
 PARTS = [
     Part("roundtrip", execute, strategy=strategy, budget={"quick": 320, "thorough": 30000}, procs={"quick": 8, "thorough": 16},
-         rule="Hypothesis: blueprint-built reactor (hex third/full, flats/corners up, Cartesian full/quarter, pin lattices, SFP) + program "
+         rule="Hypothesis: blueprint-built reactor (hex third/full, flats/corners up, Cartesian full/quarter, theta-R-Z, pin lattices, SFP) + program "
               "of <= 8 state changes (typed parameter assignments at core/assembly/block/component level, un-setting, temperature, "
               "composition, swaps, rotations, discharge to SFP, third->full conversion, time) then writeToDB -> load; oracle observe() "
               "equality original vs loaded, load twice, load(write(load)); non-trivial = >= 2 kinds of state change or a pin lattice"),
